@@ -710,7 +710,7 @@ def rv_origins(body, rv, bb, x, depth=0, _seen=None):
     return out
 
 
-TRANSPARENT_CALL = re.compile(r"Result::<T, E>::map_err$|ops::Try>::branch$|anyhow::Context<T, E>>::(context|with_context)$|Result::<T, E>::(as_ref|as_mut)$|Option::<T>::(as_ref|as_mut|as_deref|as_deref_mut|cloned|copied|ok_or|ok_or_else)$")
+TRANSPARENT_CALL = re.compile(r"Result::<T, E>::map_err$|ops::Try>::branch$|anyhow::[^|]*Context[^|]*::(context|with_context)$|Result::<T, E>::(as_ref|as_mut)$|Option::<T>::(as_ref|as_mut|as_deref|as_deref_mut|cloned|copied|ok_or|ok_or_else)$")
 
 
 def origins(body, local, depth=0, _seen=None):
